@@ -75,6 +75,7 @@ var seqModes = []string{
 	simprom.ModeHTTP502, simprom.ModeGarbage, simprom.ModeWrongType,
 	simprom.ModeJSONInternal, simprom.ModeJSONUnavail, simprom.ModeJSONTimeout,
 	simprom.ModeOKBadData,
+	simprom.ModeJSONCanceled, simprom.ModeTruncClean,
 }
 
 // the static sweep enumerates all of them
